@@ -49,18 +49,29 @@ example : StrictMono (normal (3 / 2 : ℝ) 2) := strictMono_normal _ (by norm_nu
 
 /-! ## log-normal (`lognormal_moments`, `lognormal_prior`, `lognormal_invprior`, `LognormalTransform`) -/
 
+/-- the pair both `lognormal_moments` variants return for `m, s > 0`, with `v = log(1 + (s/m)²)` -/
+theorem lognormal_moments_value {m s : ℝ} (hm : 0 < m) (hs : 0 < s) :
+    lognormalMomentsRe m s = some (log m - log (1 + s / m * (s / m)) / 2, sqrt (log (1 + s / m * (s / m)))) ∧
+    lognormalMomentsCl m s = some (log m - log (1 + s / m * (s / m)) / 2, sqrt (log (1 + s / m * (s / m)))) := by
+  obtain ⟨-, hsq, -, -⟩ := lognormal_algebra hm hs
+  have e1 : (1.0 : ℝ) = 1 := by norm_num
+  have e2 : (0.5 : ℝ) = 1 / 2 := by norm_num
+  have hm' : ¬ m ≤ 0 := not_le.mpr hm
+  have hs' : ¬ s ≤ 0 := not_le.mpr hs
+  constructor
+  · simp only [lognormalMomentsRe, hm', hs', if_false, Np.log1p, Priors.sq, TranscReal.sqrt_eq,
+      TranscReal.log_eq, e1, e2, hsq]
+    congr 2; ring
+  · simp only [lognormalMomentsCl, hm, hs, not_true_eq_false, if_false, Np.log1p, Priors.sq, TranscReal.sqrt_eq,
+      TranscReal.log_eq, e1, hsq]
+
 /-- JAX variant: for mean `m > 0`, std `s > 0` the returned `(μ_ℓ, σ_ℓ)` have `σ_ℓ > 0` and reproduce the moments of
     `exp(N(μ_ℓ, σ_ℓ²))`: mean `exp(μ_ℓ + σ_ℓ²/2) = m`, variance `(exp(σ_ℓ²) − 1)·exp(2μ_ℓ + σ_ℓ²) = s²` -/
 theorem lognormal_moments_spec {m s : ℝ} (hm : 0 < m) (hs : 0 < s) :
     ∃ lm ls, lognormalMomentsRe m s = some (lm, ls) ∧ 0 < ls ∧
       exp (lm + ls ^ 2 / 2) = m ∧ (exp (ls ^ 2) - 1) * exp (2 * lm + ls ^ 2) = s ^ 2 := by
   obtain ⟨hv, hsq, h1, h2⟩ := lognormal_algebra hm hs
-  have e1 : (1.0 : ℝ) = 1 := by norm_num
-  have e2 : (0.5 : ℝ) = 1 / 2 := by norm_num
-  refine ⟨log m - log (1 + s / m * (s / m)) / 2, sqrt (log (1 + s / m * (s / m))), ?_, sqrt_pos.mpr hv, ?_, ?_⟩
-  · simp only [lognormalMomentsRe, hm, hs, not_true_eq_false, if_false, Np.log1p, Priors.sq, TranscReal.sqrt_eq,
-      TranscReal.log_eq, e1, e2, hsq]
-    congr 2; ring
+  refine ⟨_, _, (lognormal_moments_value hm hs).1, sqrt_pos.mpr hv, ?_, ?_⟩
   · rw [pow_two, hsq]; exact h1
   · rw [pow_two, hsq]; exact h2
 
@@ -69,10 +80,7 @@ theorem lognormal_moments_spec_cl {m s : ℝ} (hm : 0 < m) (hs : 0 < s) :
     ∃ lm ls, lognormalMomentsCl m s = some (lm, ls) ∧ 0 < ls ∧
       exp (lm + ls ^ 2 / 2) = m ∧ (exp (ls ^ 2) - 1) * exp (2 * lm + ls ^ 2) = s ^ 2 := by
   obtain ⟨hv, hsq, h1, h2⟩ := lognormal_algebra hm hs
-  have e1 : (1.0 : ℝ) = 1 := by norm_num
-  refine ⟨log m - log (1 + s / m * (s / m)) / 2, sqrt (log (1 + s / m * (s / m))), ?_, sqrt_pos.mpr hv, ?_, ?_⟩
-  · simp only [lognormalMomentsCl, hm, hs, not_true_eq_false, if_false, Np.log1p, Priors.sq, TranscReal.sqrt_eq,
-      TranscReal.log_eq, e1, hsq]
+  refine ⟨_, _, (lognormal_moments_value hm hs).2, sqrt_pos.mpr hv, ?_, ?_⟩
   · rw [pow_two, hsq]; exact h1
   · rw [pow_two, hsq]; exact h2
 
@@ -81,8 +89,8 @@ theorem lognormal_moments_rejects {m s : ℝ} (hbad : m ≤ 0 ∨ s ≤ 0) :
     lognormalMomentsRe m s = none ∧ lognormalMomentsCl m s = none := by
   simp only [lognormalMomentsRe, lognormalMomentsCl]
   rcases hbad with hb | hb
-  · simp [not_lt.mpr hb]
-  · by_cases hm : 0 < m <;> simp [hm, not_lt.mpr hb]
+  · simp [hb, not_lt.mpr hb]
+  · by_cases hm : 0 < m <;> simp [hm, hb, not_lt.mpr hb, not_le.mpr]
 
 /-- `exp(μ_ℓ + σ_ℓ·x)` is strictly increasing for `σ_ℓ > 0` -/
 theorem strictMono_lognormal (lm : ℝ) {ls : ℝ} (hls : 0 < ls) : StrictMono (lognormal lm ls) := by
@@ -98,10 +106,8 @@ theorem strictMono_lognormal_prior {m s : ℝ} (hm : 0 < m) (hs : 0 < s) :
   obtain ⟨lm', ls', he', hpos', h1', h2'⟩ := lognormal_moments_spec_cl hm hs
   refine ⟨lognormal lm' ls', ?_, ?_, strictMono_lognormal lm' hpos'⟩
   · -- the two variants compute the same pair
-    have e2 : (0.5 : ℝ) = 1 / 2 := by norm_num
     have : lognormalMomentsRe m s = lognormalMomentsCl m s := by
-      have e3 : ∀ t : ℝ, 1 / 2 * t = t / 2 := fun t => by ring
-      simp only [lognormalMomentsRe, lognormalMomentsCl, e2, e3]
+      rw [(lognormal_moments_value hm hs).1, (lognormal_moments_value hm hs).2]
     intro x; simp only [lognormalPriorRe, this, he', Option.map_some]
   · intro x; simp only [lognormalTransformCl, he', Option.map_some]
 
